@@ -286,6 +286,7 @@ class Result:
     n_like_reported: int | None = None
     flow_fingerprint: str | None = None
     file_audit_failures: list = field(default_factory=list)
+    live_states: list = field(default_factory=list)
 
     def summary(self):
         """Everything observable about the finished run, for digests/equality."""
@@ -551,6 +552,7 @@ def run_process(
 
                 # ---------------- checkpoint observation ----------------
                 def _cb(state):
+                    res.live_states.append(state)  # the very object the callback received (same-process resume route)
                     b = pickle.dumps(state, protocol=pickle.HIGHEST_PROTOCOL)
                     res.payloads.append((state.get("iteration"), state.get("meta", {}).get("beta"), b))
                     trace.log(
@@ -608,6 +610,8 @@ def run_process(
                         skw["resume_from"] = payload
                     elif route == "dict":
                         skw["resume_from"] = pickle.loads(payload)
+                    elif route == "dict_live":
+                        skw["resume_from"] = payload  # a live dictionary kept in memory by the caller
                     elif route == "path":
                         skw["resume_from"] = file_path
                     else:
@@ -632,6 +636,24 @@ def run_process(
                             with A.auto_checkpoint(file_path, every=ck["every"]):
                                 return A.sample_posterior(scn["n_samples"], sampler=sampler_name, **kw)
                         return A.sample_posterior(scn["n_samples"], sampler=sampler_name, **kw)
+                    if scn.get("api") == "base_smc":
+                        # SMCSampler.sample is the only public place where beta_tolerance / store_sample_history can be
+                        # given (MiniPCNSMC.sample does not forward them): call the base-class method on a MiniPCNSMC
+                        # instance after doing what MiniPCNSMC.sample itself does first
+                        from aspire.samplers.smc.base import SMCSampler
+                        from aspire.utils import determine_backend_name
+
+                        smp = A.init_sampler(sampler_name, **call_kw, **({"rng": user_rng} if user_rng is not None else {}))
+                        cur["sampler"] = smp
+                        kw = dict(skw)
+                        sk2 = dict(kw.pop("sampler_kwargs", None) or {})
+                        sk2.setdefault("n_steps", 5 * smp.dims)
+                        sk2.setdefault("target_acceptance_rate", 0.234)
+                        sk2.setdefault("step_fn", "tpcn")
+                        smp.sampler_kwargs = sk2
+                        smp.backend_str = determine_backend_name(xp=smp.xp)
+                        out = super(type(smp), smp).sample(scn["n_samples"], **kw)  # bound SMCSampler.sample
+                        return out, smp.history
                     # ---- sampler driven directly (constructor / sample-call rng routes)
                     ctor_kw = {}
                     if user_rng is not None and rng_route == "ctor" and is_smc and sampler_name != "emcee_smc":
